@@ -148,6 +148,14 @@ package jd
 //@   ensures_bounded ret0 == ""
 //@   carries C18
 
+//@ contract verifV1PointerPatch
+//@   bounded
+//@   universe a verifPointerDocs()
+//@   universe b verifPointerDocs()
+//@   requires validNode(a) && validNode(b)
+//@   ensures_bounded ret0 == ""
+//@   carries C18
+
 //@ contract verifV1RandMerge
 //@   bounded
 //@   universe a verifRandANF(TIER)
